@@ -103,6 +103,12 @@ def run(args):
     if args["build"]:
         common.build_ksim()
     t0 = time.time()
+    # stub fidelity first: seeded event sequences on real processes vs. the SimKernel
+    import kfidelity
+    fid_ok, fid_bad = kfidelity.run(seed, 400 if tier == "quick" else 4000)
+    if fid_bad:
+        raise common.HarnessError("SimKernel disagrees with this kernel on %d sequences, first: %r" % (len(fid_bad), fid_bad[0]))
+    log("[ksim] stub fidelity: %d event sequences agree with the real kernel" % fid_ok)
     agg = kbatch.run_batch(seed, runs, events, args["workers"])
     findings = common.load_findings()
     mine, harness = classify(agg, "C06", C06_CLASSES)
@@ -121,6 +127,7 @@ def run(args):
                 "event-log hashes among sessions with a launch and >= 2 child events",
         "samples": agg["samples"],
         "states": agg["states"],
+        "traces_validated_against_impl": fid_ok,
         "steps": agg["steps"],
         "simulated_waitpid_calls": agg["waits"],
         "world_events_injected": agg["world_events"],
@@ -144,7 +151,8 @@ def run(args):
     }
     del coverage["faults_fired"]["child_stop"]
     common.write_evidence("C06", tier, seed, coverage, wall, n_viol, [
-        "SimKernel report semantics equal Linux's (checked by hand against kernel 6.18; state-based stop/continue reports)",
+        "SimKernel report semantics equal Linux's: checked on every run by performing seeded stop/continue/exit/kill "
+        "sequences on real processes and comparing the waitpid reports (coverage.traces_validated_against_impl)",
         "job registration by the harness equals the parent branch of run_single_program",
         "HashMap iteration order inside cicada does not influence outcomes (double-run determinism check)",
     ])
